@@ -825,6 +825,20 @@ def trig_request(o, pre, st):
 
 
 
+RENUM = {'1': '9', '2': '10', '3': '100', '5': '1000'}
+
+
+def renumber(ops, m=RENUM):
+    """rewrites the patch numbers of a history (offers, rollback lists, damage ops); contents and hashes stay"""
+    out = []
+    for o in ops:
+        o = re.sub(r'(?<= p=)(\d+)(?=:)', lambda k: m.get(k.group(1), k.group(1)), o)
+        o = re.sub(r'(?<= rb=)([0-9;]+)', lambda k: ';'.join(m.get(x, x) for x in k.group(1).split(';')), o)
+        o = re.sub(r'^(op dmg (?:delfile|deldir|setart|trunc|ext|same|artisfile|artfileisdir) )(\d+)', lambda k: k.group(1) + m.get(k.group(2), k.group(2)), o)
+        out.append(o)
+    return out
+
+
 def build_life(ctx, tier, rnd, labels=None, extra_pfx=(), depth=None, walks=None, key=None):
     al = gen.Alphabet(ctx, key=key)
     labels = labels or LIFE
@@ -834,7 +848,11 @@ def build_life(ctx, tier, rnd, labels=None, extra_pfx=(), depth=None, walks=None
     for pre in pf:
         hs += gen.exhaustive_exact(al, labels, depth, prefixes=(pre,), name='L%d_' % len(hs), suffix=('q', 'c'))
     wl = labels + ['p', 'c', 'q', 'u1b', 'rb12', 'rb221', 'u3rb2', 'u2rb2', 'crb2', 'crb1', 'udl2', 'uh3', 'i2', 'dJ']
-    hs += gen.random_walks(al, wl, [1] * len(wl), walks or (150 if tier == 'quick' else 4000), (10, 40), rnd, name='Lr')
+    walks_ = gen.random_walks(al, wl, [1] * len(wl), walks or (150 if tier == 'quick' else 4000), (10, 40), rnd, name='Lr')
+    hs += walks_
+    # the same walks with the patches numbered 9, 10, 100 (and 5 -> 1000): numeric order kept, the order of the decimal
+    # strings / directory names reversed - anything that compares names instead of numbers shows here
+    hs += [(n_ + 'rn', renumber(o_)) for n_, o_ in walks_[:(40 if tier == 'quick' else 1200)]]
     return hs
 
 
